@@ -514,6 +514,18 @@ class World:
                 raise PyRaise("TypeError", "object of type 'NoneType' has no len()")
             if hasattr(v, "sym_len"):
                 return v.sym_len
+            from .values import UTerm
+            if isinstance(v, UTerm) and v.sort in ("str", "any") and v.fn in ("str.rstrip", "str.strip", "str.lstrip") and not v.args[1:]:
+                # length of a stripped text: between 0 and the length of the text; at least 1 when the
+                # text is non-empty and (for rstrip) does not start with white space
+                import hashlib
+                inner = v.args[0]
+                n_in = _len(it, [inner], {})
+                n = z3.Int("len!" + hashlib.sha256(repr(v.key()).encode()).hexdigest()[:10])
+                it.assume(z3.And(n >= 0, n <= n_in))
+                if v.fn == "str.rstrip" and getattr(inner, "starts_nonblank", False):
+                    it.assume(z3.Implies(n_in >= 1, n >= 1))
+                return n
             raise Unsupported("len(%s)" % type(v).__name__)
 
         @reg("all")
